@@ -262,7 +262,15 @@ func (n *QueryNode) Start() {
 	defer n.queryMu.Unlock()
 	n.queryErr = make(chan error, 1)
 	go func() {
-		n.queryErr <- n.doQuery(n.ins[0])
+		var err error
+		// The answers of the server are decoded here: a panic fails the task, not the process.
+		defer func() {
+			if r := recover(); r != nil {
+				err = fmt.Errorf("panic while querying: %v", r)
+			}
+			n.queryErr <- err
+		}()
+		err = n.doQuery(n.ins[0])
 	}()
 }
 
@@ -635,7 +643,15 @@ func (n *FluxQueryNode) Start() {
 	defer n.queryMu.Unlock()
 	n.queryErr = make(chan error, 1)
 	go func() {
-		n.queryErr <- n.doQuery(n.ins[0])
+		var err error
+		// The answers of the server are decoded here: a panic fails the task, not the process.
+		defer func() {
+			if r := recover(); r != nil {
+				err = fmt.Errorf("panic while querying: %v", r)
+			}
+			n.queryErr <- err
+		}()
+		err = n.doQuery(n.ins[0])
 	}()
 }
 
